@@ -73,6 +73,10 @@ def check(ctx: Ctx) -> None:
     numbers_not_truth_tested(ctx, "C03.R16", ("metadata_manager",), "version numbers: the pointer to v0 written by table creation")
     from .c19 import r3 as c19_r3_
     c19_r3_(ctx, "C03.R17")
+    # a table whose creator died before the first pointer write is reopened WITHOUT a pointer: commit() creates it on
+    # FileNotFoundError, so every S3 read must report a missing object as exactly that (a raw ClientError fails every commit)
+    from .c20 import r2 as c20_r2_
+    ctx.shared(c20_r2_, "C20.R2", "C03.R18", "a missing object is FileNotFoundError on every read path the committer relies on")
 
 
 def r5(ctx: Ctx) -> None:
